@@ -104,3 +104,9 @@ install(globals(), 'C12', view, oracle,
         technique='Lean 4 invariant proof over the scheduler log + emit-sequence correspondence',
         extra_corpus=_extra(),
         required=['emit_times_strict', 'row_is_flagged_state', 'one_row_per_batch', 'initial_prefix', 'at_most_one_row_per_pass', 'row_contents'])
+
+
+# emission through units and custom serializers
+from harness import emitser as _es             # noqa: E402
+from harness.mixins import add_family as _add_family   # noqa: E402
+_add_family(globals(), _es, 'emitser', _es.oracle, share=0.05)
